@@ -43,6 +43,11 @@ var c18Prefixes = []string{"", "p: ", "%d"}
 
 var c18Sentinel = errors.New("sentinel cause")
 
+// multiErr has a non-comparable dynamic type (comparing two interface values holding it with == panics)
+type multiErr []error
+
+func (m multiErr) Error() string { return fmt.Sprintf("%d errors", len(m)) }
+
 func c18Cause(i int) error {
 	switch i {
 	case 1:
@@ -57,6 +62,8 @@ func c18Cause(i int) error {
 		return thrift.NewApplicationException(6, "inner app")
 	case 6:
 		return errors.New("") // a cause with empty text
+	case 7:
+		return multiErr{io.EOF, c18Sentinel} // non-comparable dynamic type
 	}
 	return nil
 }
@@ -93,9 +100,26 @@ func c18Prepend(c *mc.Ctx, k c18Case) {
 		if k.Wrap {
 			in = fmt.Errorf("outer: %w", orig)
 		}
+		type msger interface{ Msg() string }
+		type tider interface{ TypeId() int32 }
+		snap := func(e error) string {
+			s := ""
+			if m, ok := e.(msger); ok {
+				s += fmt.Sprintf("msg=%q ", m.Msg())
+			}
+			if t, ok := e.(tider); ok {
+				s += fmt.Sprintf("id=%d", t.TypeId())
+			}
+			return s
+		}
+		before := snap(orig) // taken BEFORE Error() is ever called on it
 		wantText := k.Prefix + in.Error()
 		origText := in.Error()
 		got := thrift.PrependError(k.Prefix, in)
+		if after := snap(orig); after != before {
+			bad("argument-modified", "the exception passed in was modified by Error()/PrependError: %s -> %s", before, after)
+			return
+		}
 		if in.Error() != origText {
 			bad("argument-modified", "PrependError modified the error it was given: text %q -> %q (shared/sentinel errors would accumulate prefixes)", origText, in.Error())
 			return
@@ -112,6 +136,13 @@ func c18Prepend(c *mc.Ctx, k c18Case) {
 				cls = "text:empty-prefix-and-empty-original-text"
 			}
 			bad(cls, "error text %q, want prefix + original text = %q", got.Error(), wantText)
+			return
+		}
+		// a later, unrelated PrependError must not change an error returned earlier (no shared scratch memory)
+		thrift.PrependError("another prefix that is fairly long: ", thrift.NewProtocolException(3, "another message, also fairly long, to overwrite any shared buffer"))
+		thrift.PrependError("x", errors.New("y"))
+		if got.Error() != wantText {
+			bad("result-changed-later", "the text of the returned error changed after a later PrependError call: %q, want %q", got.Error(), wantText)
 			return
 		}
 		if again := thrift.PrependError(k.Prefix, in); again == nil || again.Error() != wantText {
@@ -260,7 +291,7 @@ func c18Run(c *mc.Ctx) {
 			for _, msg := range c18Msgs {
 				causes := []int{0}
 				if kind == "protocol-with-cause" {
-					causes = []int{1, 2, 3, 4, 5, 6}
+					causes = []int{1, 2, 3, 4, 5, 6, 7}
 				}
 				for _, cause := range causes {
 					for _, wrap := range []bool{false, true} {
@@ -297,7 +328,7 @@ func c18Run(c *mc.Ctx) {
 			}
 		}
 	}
-	for cs := 1; cs <= 6; cs++ {
+	for cs := 1; cs <= 7; cs++ {
 		targets = append(targets, tgt{Kind: "cause", Cause: cs}, tgt{Kind: "protocol-with-cause", Cause: cs})
 	}
 	// default-text targets: an application exception with an empty message reports the default text for its id
@@ -320,7 +351,7 @@ func c18Run(c *mc.Ctx) {
 			}
 		}
 	}
-	for cs := 1; cs <= 6; cs++ {
+	for cs := 1; cs <= 7; cs++ {
 		for ti := range targets {
 			if !c.Mine() {
 				continue
